@@ -15,22 +15,49 @@ PROP = "C14"
 CHUNK = 20
 
 
+APPEND_FILES = [c06.ALPHA[0], c06.ALPHA[1], c06.ALPHA[6], c06.ALPHA[7], c06.ALPHA[8], c06.ALPHA[13],
+                C.spec("MARKFF", n=300, pat="mFF.p0"), C.spec("MARK01", n=600, pat="m01.p2")]
+
+
 def cases(tier, seed):
     for c in c06.cases(tier, seed):
         if c["k"] == "write":
             yield c
+    # images produced by appending (the tool re-reads the existing image and writes everything again)
+    import itertools
+    for tup in itertools.product(range(len(APPEND_FILES)), repeat=2):
+        yield {"k": "append", "files": [APPEND_FILES[i] for i in tup]}
+    for tup in itertools.product((0, 6, 7), repeat=3):
+        yield {"k": "append", "files": [APPEND_FILES[i] for i in tup]}
+
+
+def build_by_append(case):
+    """each file is added by its own open / add / save(append) cycle on a host file, as --append does"""
+    import os
+    from cocoasm.virtualfiles.virtual_file import VirtualFile, VirtualFileType
+    from cocoasm.virtualfiles.source_file import SourceFile, SourceFileType
+    with common.scratch_dir(chdir=False) as d:
+        path = os.path.join(d, "t.cas")
+        for s in case["files"]:
+            vf = VirtualFile(SourceFile(path, file_type=SourceFileType.BINARY), VirtualFileType.CASSETTE)
+            vf.open_virtual_file()
+            vf.add_coco_file(C.to_coco(s))
+            vf.save_virtual_file(append_mode=True)
+        return open(path, "rb").read()
 
 
 def check_case(case):
-    cell = c06.cell_of(case)
+    cell = c06.cell_of(case) if case["k"] != "append" else ""
     res = {"nontrivial": True, "outcome": "ok"}
     viol = []
 
     def bad(symptom, expected, observed):
         viol.append({"component": "stream", "cell": cell, "symptom": symptom, "expected": expected, "observed": observed, "input": case})
 
+    if case["k"] == "append":
+        cell = "append|{}".format(",".join(s["name"] for s in case["files"]))
     try:
-        img = c06.build_image(case)
+        img = build_by_append(case) if case["k"] == "append" else c06.build_image(case)
     except Exception as e:
         t, w = common._raiser(e)
         bad("writer raised {}@{}".format(t, w), "image", repr(e)[:100])
